@@ -36,7 +36,43 @@ def visExpOnImplParse (c : Case) (o : ObsLine) : Option String :=
     | _ => none
   | _ => none
 
-def judgeVis (onImplParse : Bool) (c : Case) (o : ObsLine) : Verdict :=
+/-- the component field a property field belongs to (indices of `tree.Statement`) -/
+def propBaseField (f : Nat) : Option Nat :=
+  [(1, 0), (2, 0), (7, 5), (8, 5), (11, 9), (12, 9), (14, 13), (15, 13), (20, 18), (21, 18)].lookup f
+
+/-- texts of property fields whose component has no value of its own in the same statement
+    (the printer hangs properties below the values of their component), on every level -/
+partial def unprintableProps : PNode → List String
+  | .stmt _ fs =>
+    let own := fs.flatMap fun (f, n) =>
+      match propBaseField f with
+      | some b => if fs.any (fun p => p.1 = b) then [] else leafTextsOf n ++ privTextsOf n
+      | none => []
+    own ++ fs.flatMap (fun p => unprintableProps p.2)
+  | .comb _ _ _ _ priv l r => unprintableProps l ++ unprintableProps r ++ priv.flatMap unprintableProps
+  | .leaf _ _ _ _ priv => priv.flatMap unprintableProps
+  | .pairs _ ns => ns.flatMap unprintableProps
+  | .empty => []
+
+def plainText (t : String) : Bool := !t.isEmpty && t.all (fun c => c.isAlphanum || c = ' ')
+
+/-- every value of the parsed statement occurs in the visual tree (values with characters the
+    JSON escaping touches are left to the byte-exact comparison) -/
+def missingValues (c : Case) (o : ObsLine) (got : String) : Option (List String × List String) :=
+  match o.obs.getObjVal? "parse" with
+  | .ok pj =>
+    match pj.getObjVal? "nodes" with
+    | .ok (.arr #[n]) =>
+      match nodeOfJson n with
+      | .ok pn =>
+        let all := (leafTextsOf pn ++ privTextsOf pn).filter plainText
+        let missing := all.filter (fun t => (got.splitOn t).length < 2)
+        if missing.isEmpty then none else some (missing, unprintableProps pn)
+      | .error _ => none
+    | _ => none
+  | _ => none
+
+def judgeVis (onImplParse : Bool) (c : Case) (o : ObsLine) (valuesOracle : Bool := false) : Verdict :=
   match o.st with
   | "ok" =>
     let got := (o.obs.getObjValAs? String "out").toOption.getD ""
@@ -50,7 +86,15 @@ def judgeVis (onImplParse : Bool) (c : Case) (o : ObsLine) : Verdict :=
       let spec := (c.exp.getStr?).toOption.getD ""
       let kf := (c.note.getObjValAs? String "kf").toOption.getD ""
       if onImplParse && kf = "" && spec ≠ "" && got ≠ spec then .disagree "visual output differs from the tree of the documented meaning" spec got
-      else .ok
+      else
+        match (if onImplParse && valuesOracle then missingValues c o got else none) with
+        | none => .ok
+        | some (missing, unprintable) =>
+          -- known: properties of a component that has no value of its own are not printed
+          if missing.all (fun t => unprintable.contains t) then
+            .violation "[kf:C09-properties-of-component-without-own-value] a value of the parsed statement is missing from the visual tree"
+              s!"{missing} (properties of a component without a value of its own)"
+          else .violation "[new] a value of the parsed statement is missing from the visual tree" s!"{missing}"
   | "err" => .disagree "rejected" "" ("ERR " ++ o.code)
   | _ => .crash s!"{o.st}: {o.code}"
 
